@@ -53,6 +53,12 @@ func (s *scanner) unread() {
 
 // Scan returns the next token and parsed value.
 func (s *scanner) Scan() (token tok, value string, startPos, endPos TokenPos) {
+	// Track token positions.
+	defer func() { endPos = s.pos }()
+
+	// The token that follows a comment is scanned from here again (not by calling Scan from
+	// within itself: a long run of comments would otherwise use one stack frame per comment)
+afterComment:
 	ch := s.read()
 
 	if isWhitespace(ch) {
@@ -60,9 +66,7 @@ func (s *scanner) Scan() (token tok, value string, startPos, endPos TokenPos) {
 		ch = s.read()
 	}
 
-	// Track token positions.
 	startPos = s.pos
-	defer func() { endPos = s.pos }()
 
 	switch ch {
 	case eof:
@@ -102,7 +106,7 @@ func (s *scanner) Scan() (token tok, value string, startPos, endPos TokenPos) {
 	}
 
 	if s.consumeIfComment(ch) {
-		return s.Scan()
+		goto afterComment
 	}
 
 	if isSpecialSymbol(ch) {
